@@ -75,6 +75,13 @@ class Res:
     def count(self, name, k=1):
         self.r["counts"][name] = self.r["counts"].get(name, 0) + k
 
+    def stat_max(self, name, value):
+        """running maximum (e.g. the largest deviation seen on non-violating cases: the margin to the tolerance)"""
+        m = self.r.setdefault("maxima", {})
+        v = float(value)
+        if v == v and v > m.get(name, float("-inf")):
+            m[name] = v
+
     def violation(self, fp, what, case):
         if len(self.r["viol"]) < 40:
             self.r["viol"].append({"fp": fp, "what": what, "case": jsonable(case)})
@@ -128,6 +135,8 @@ class Report:
             self.samples.extend(r["samples"][: 6 - len(self.samples)])
         for k, v in r["counts"].items():
             self.counts[k] = self.counts.get(k, 0) + v
+        for k, v in r.get("maxima", {}).items():
+            self.extra["max_" + k] = max(self.extra.get("max_" + k, float("-inf")), v)
         self.outcomes.update(r["outcomes"])
 
     def cap(self, what):
